@@ -49,6 +49,22 @@ def run(prop, tier):
         rep.cov["states"] += st
         rep.cov["transitions"] += st
         engine_eliot.judge(rep, verdicts, "random-program")
+        # (b') one dictionary object offered, changed by its owner, offered again: each line is the dictionary as it was when offered
+        here = os.path.dirname(os.path.abspath(__file__))
+        p = repo_python([os.path.join(here, "c10_reuse_exec.py"), str(SEED % 100000), "60" if quick else "1500"], timeout=600)
+        if p.returncode != 0:
+            raise MachineryFailure("c10_reuse_exec failed: " + p.stderr.decode("utf-8", "replace")[-800:])
+        reported = False
+        for h in json.loads(p.stdout):
+            rep.cov["traces_validated_against_impl"] += 1
+            rep.count_case(["reuse", h["text"], h["steps"]], True)
+            if (h["err"] or h["tail"] or h["got"] != h["expected"]) and not reported:
+                reported = True
+                k = next((i for i, (a, b) in enumerate(zip(h["got"], h["expected"])) if a != b), min(len(h["got"]), len(h["expected"])))
+                rep.violation("one dictionary offered %d times to a FileDestination (%s mode), changed in between (%s): line %d is not the "
+                              "dictionary as it was when offered%s" % (len(h["expected"]), "text" if h["text"] else "binary", h["steps"], k + 1,
+                                                                        (" [" + h["err"] + "]") if h["err"] else ""),
+                              {"engine": "c10reuse", "module": "checks_c10", "history": h})
         # (c) crash runs
         rng = random.Random(SEED + 110)
         cases = checks_c11.crash_cases(tier, rng)
@@ -67,6 +83,12 @@ def run(prop, tier):
 
 
 def replay(prop, obj, path):
+    if obj.get("engine") == "c10reuse":
+        h = obj["history"]
+        print("steps %s (%s mode)\nexpected lines: %s\nrecorded lines: %s\n(re-run ./check C10 quick to see whether it still happens)"
+              % (h["steps"], "text" if h["text"] else "binary", json.dumps(h["expected"])[:1500], json.dumps(h["got"])[:1500]))
+        print("VIOLATION property=%s replay=%s" % (prop, path))
+        return 1
     if obj.get("engine") == "json":
         import c10_values
         return c10_values.replay(prop, obj, path)
